@@ -360,6 +360,11 @@ def check(model, rep):
                    'angles beyond %s are reduced modulo %s: the result differs from the input by a non-multiple of 2*pi '
                    '(the rotation changes)' % ([norm_text(il.expand(t_)) for (_c, t_) in thresholds], norm_text(il.expand(rhs))), line=mexpr.lineno)
     rep.floor('R18.2', 'sibling wrap functions with a reduction', n_sites, 3)
+    # the transform's wrap touches the rotation rows only (the translation shares the six-vector with it)
+    from .tmrows import rotation_only
+    n_rot = rotation_only(rep, 'R18.2', model.cls(TMM, 'tm'), model.func(TMM, 'tm.angleMod'), 'tm.angleMod',
+                          'translation components of magnitude 2*pi or more are wrapped like angles, the pose moves')
+    rep.floor('R18.2', 'in-place stores of tm.angleMod', n_rot, 1)
 
     # ---------------------------------------------------------------- R18.3
     rep.rule('R18.3', 'arguments of exp / log / hat / vee have the Lie kind the primitive is defined on (known-wrong only)')
